@@ -250,6 +250,18 @@ Dup(which) ==
      ELSE UNCHANGED state
   /\ Done(Op("Dup", which, TNone, Zero, TRUE, Absent))
 
+\* an operation on the SAME uref through another interface that shares its flags word with the date types:
+\* setting, deleting or copying one of the void attributes kept in uref->flags (flow end / discontinuity /
+\* random, block start / end, clock ref) - no date, no delay changes
+Flags == {"set_disc", "del_disc", "del_end", "del_random", "set_start", "del_start", "del_ref", "copy_end",
+          "copy_ref", "set_random"}
+Flag(which) ==
+  /\ IF Variant = "flag_clears_types"
+     THEN type' = [d \in DOMAIN type |-> TNone] /\ date' = [d \in DOMAIN date |-> Unset]
+          /\ UNCHANGED <<dtsPts, crDts, rapCr>>
+     ELSE UNCHANGED state
+  /\ Done(Op("Flag", which, TNone, Zero, TRUE, Absent))
+
 \* observers are operations of the behaviour like any other
 Get(dom, t) ==
   /\ UNCHANGED state
@@ -281,6 +293,7 @@ KSetRapOk  == More /\ \E dom \in Doms, v \in Palette :
 KSetRapErr == More /\ \E dom \in Doms, v \in Palette :
                          (IF GetCr(dom) = Absent THEN TRUE ELSE Gt(v, GetCr(dom))) /\ SetRap(dom, v)
 KDup       == More /\ \E which \in {"copy", "orig"} : Dup(which)
+KFlag      == More /\ \E which \in Flags : Flag(which)
 KGet       == More /\ \E dom \in Doms, t \in GetTypes : Get(dom, t)
 KGetDelay  == More /\ \E w \in Delays : GetDelayOp(w)
 
@@ -288,7 +301,7 @@ KRebase == KRebaseOk \/ KRebaseErr
 KSetRap == KSetRapOk \/ KSetRapErr
 
 \* (the split into Ok / Err / Unspec actions only serves the coverage report)
-Next == \/ KGet \/ KGetDelay \/ KDup \/ KRebaseOk \/ KRebaseErr \/ KDelDelay \/ KDelete
+Next == \/ KGet \/ KGetDelay \/ KDup \/ KFlag \/ KRebaseOk \/ KRebaseErr \/ KDelDelay \/ KDelete
         \/ KAdd \/ KAddUnspec \/ KSetRapOk \/ KSetRapErr \/ KSetDelay \/ KSetDate
 
 Spec == Init /\ [][Next]_vars
@@ -298,7 +311,7 @@ Spec == Init /\ [][Next]_vars
 \* has by far the most instances, does not crowd out the others.
 Kinds == <<"SetDate", "SetDate", "SetDate", "SetDate", "Rebase", "Rebase", "Rebase", "Rebase",
            "Add", "Add", "Delete", "SetDelay", "SetDelay", "SetDelay", "DelDelay",
-           "SetRap", "SetRap", "Dup", "Get", "GetDelay">>
+           "SetRap", "SetRap", "Dup", "Flag", "Get", "GetDelay">>
 
 Kind(k) == CASE k = "SetDate"  -> KSetDate
              [] k = "Rebase"   -> KRebase
@@ -308,6 +321,7 @@ Kind(k) == CASE k = "SetDate"  -> KSetDate
              [] k = "DelDelay" -> KDelDelay
              [] k = "SetRap"   -> KSetRap
              [] k = "Dup"      -> KDup
+             [] k = "Flag"     -> KFlag
              [] k = "Get"      -> KGet
              [] k = "GetDelay" -> KGetDelay
 
@@ -345,7 +359,7 @@ Algebra ==
        /\ (r # Absent) => c # Absent /\ rapCr # Unset /\ c = Add(r, rapCr)
 
 \* re-basing, reading and duplicating change no date (nor delay) that could be read before
-Preserving == {"Rebase", "Get", "GetDelay", "Dup"}
+Preserving == {"Rebase", "Get", "GetDelay", "Dup", "Flag"}
 RebasePreserves ==
   [][ last'.op \in Preserving =>
         LET G == AllGetters
